@@ -9,11 +9,13 @@
 mod case;
 mod check;
 mod driver;
+mod explain;
 mod gen;
 mod interp;
 mod model;
 mod seq;
 mod oracle;
+mod oracle2;
 mod payload;
 mod run;
 mod util;
